@@ -1,5 +1,6 @@
 import AasVerif.Lemmas.LexBlock
 import AasVerif.Lemmas.LexLine
+import AasVerif.Lemmas.Xml
 import AasVerif.Gen.Descr
 /-!
 # C20 — Generated source files are syntactically well-formed (wrapper level)
@@ -138,5 +139,37 @@ theorem cs_line_comments_only (t out rest : Text) (hne : splitLines t ≠ [])
   apply List.map_congr_left
   intro l _
   split <;> rfl
+
+end AasVerif.Props.C20
+
+namespace AasVerif.Props.C20
+open AasVerif AasVerif.Descr AasVerif.Gen.Descr
+
+/-! ## C# documentation text -/
+
+/-- `visit_text` of C#: for EVERY text the escaped text is well-formed XML character data
+(no `<`, no bare `&`, no `]]>`, only XML `Char`s) and denotes the text with the code points
+which XML cannot represent replaced by U+FFFD. -/
+theorem xml_escape_wellformed (t : Text) :
+    Xml.content (csVisitText csRanges csRepl t) = some (csSanitize csRanges csRepl t) := by
+  apply Xml.content_escape
+  · intro c h
+    simp only [inRanges, csRanges, List.any, Bool.or_eq_true, Bool.and_eq_true, decide_eq_true_eq, Bool.or_false] at h
+    simp only [Xml.isChar, Bool.or_eq_true, Bool.and_eq_true, decide_eq_true_eq, beq_iff_eq]
+    omega
+  · intro y
+    have : saxEscape csRepl = [65533] := by decide
+    rw [this]
+    rw [show ([65533] : Text) ++ y = 65533 :: y from rfl]
+    by_cases hy : ∀ r', y ≠ 93 :: 62 :: r'
+    · rw [Xml.content_plain 65533 y (by decide) (by decide) (by decide) hy]; rfl
+    · rw [Xml.content]
+      · simp [Xml.isChar]; rfl
+      all_goals (intros; simp_all)
+
+/-- Without the replacement of the non-XML characters the property is false (the defect of the
+unchanged tree): U+0001 cannot occur in an XML document. -/
+theorem xml_escape_needs_sanitizing : Xml.content (saxEscape [97, 1, 98]) = none := by
+  decide
 
 end AasVerif.Props.C20
